@@ -20,7 +20,7 @@ func init() { Registry["C20"] = C20 }
 func C20(p *ir.Program, r *report.R) {
 	c := C{p, r}
 	r.Floor = 170
-	r.Explain = "Decided: (charge before execute) in Interpreter.Run the call of operation.execute is dominated by operation.valid, successful validateStack and enforceRestrictions, a nil gasCost error and contract.UseGas(cost) true, with the memory-size overflow tests on the memorySize path and memory resized before execution; Contract.UseGas subtracts only under Gas >= gas; (jump table registry) every operation literal of vm/evm has execute, gasCost, validateStack and valid:true, and every entry whose execute function touches memory (Set/Set32/Get/GetPtr/GetCopy, directly or through a same-package helper) declares memorySize; (frame atomicity) every EVM and WASM frame function that takes a state snapshot reverts to that same snapshot on every path on which the frame's error is non-nil, takes the snapshot before transferring value, transfers only after the depth and balance checks, and burns the remaining gas unless the error is the explicit revert; app.CallWasmContract reverts on both error paths; (determinism) no map iteration, clock-dependent value, randomness or goroutine in vm/evm execution code outside the tracer; (crash-free) the explicit panic sites of vm/evm reachable from Run equal the reviewed table. ADDED after seeded-change testing: The revert-on-error rule is path-sensitive (the returned error value is followed backwards through phis and local stores; branch conditions on one SSA value are kept consistent); slices bounded by big.Int.Uint64() need BitLen <= 64 and <= len or a BigMin clamp; CREATE/CREATE2 hand the child exactly the amount charged with UseGas, the CALL family evm.callGasTemp (+ stipend). Rounds 4-5: EVM.Reset empties the per-transaction fee lists; every call-family gas function leaves the forwarded amount in evm.callGasTemp; every frame is created with a non-nil value (or is a delegate frame). Round 6: the fee flag is lowered at the start of every operation. NOT decided: termination, gas totals, memory-offset arithmetic inside the gas/memory functions, the third-party tc-wasm engine."
+	r.Explain = "Decided: (charge before execute) in Interpreter.Run the call of operation.execute is dominated by operation.valid, successful validateStack and enforceRestrictions, a nil gasCost error and contract.UseGas(cost) true, with the memory-size overflow tests on the memorySize path and memory resized before execution; Contract.UseGas subtracts only under Gas >= gas; (jump table registry) every operation literal of vm/evm has execute, gasCost, validateStack and valid:true, and every entry whose execute function touches memory (Set/Set32/Get/GetPtr/GetCopy, directly or through a same-package helper) declares memorySize; (frame atomicity) every EVM and WASM frame function that takes a state snapshot reverts to that same snapshot on every path on which the frame's error is non-nil, takes the snapshot before transferring value, transfers only after the depth and balance checks, and burns the remaining gas unless the error is the explicit revert; app.CallWasmContract reverts on both error paths; (determinism) no map iteration, clock-dependent value, randomness or goroutine in vm/evm execution code outside the tracer; (crash-free) the explicit panic sites of vm/evm reachable from Run equal the reviewed table. ADDED after seeded-change testing: The revert-on-error rule is path-sensitive (the returned error value is followed backwards through phis and local stores; branch conditions on one SSA value are kept consistent); slices bounded by big.Int.Uint64() need BitLen <= 64 and <= len or a BigMin clamp; CREATE/CREATE2 hand the child exactly the amount charged with UseGas, the CALL family evm.callGasTemp (+ stipend). Rounds 4-5: EVM.Reset empties the per-transaction fee lists; every call-family gas function leaves the forwarded amount in evm.callGasTemp; every frame is created with a non-nil value (or is a delegate frame). Round 6: the fee flag is lowered at the start of every operation. Round 7: hash and code of a frame come from the same address; the state object stores a new integer for every balance it is handed. NOT decided: termination, gas totals, memory-offset arithmetic inside the gas/memory functions, the third-party tc-wasm engine."
 	r.Trusted = []string{"tc-wasm engine (third party)", "big.Int arithmetic"}
 
 	// ---- charge before execute ---------------------------------------------------------
